@@ -191,3 +191,40 @@ PROPS["C04"] = dict(
                "invariance of |L||U| justifies the row-wise form of the bound.",
     assumptions=["mapping non-degenerate on the grid"],
 )
+
+_SMOOTH_RULE = ("smoothing-admissible grids (ntheta in 4,8,...,64 divisible by 4; >=%d circles and >=3 radial nodes; both "
+    "parities of the circle count; explicit and automatic split; uniform/geometric/random/midpoint radii, non-uniform "
+    "antipodal angles; R0/Rmax 1e-8..0.5), four geometries, seven profiles, both boundary modes, take and give (all "
+    "cache-flag combinations), threads 1,2,3,4,7,16, iterate x and rhs f of six kinds, optionally carrying the boundary "
+    "data. 3 of 4 cases (<=15x24 nodes) are additionally compared with the reference zebra relaxation on the probed "
+    "matrix (long double block solves), checked for the fixed point %s. Non-trivial: both sections and both colours "
+    "present. Distinct: (dims, geometry, profile, BC, #circles, threads, model/invariant-only, boundary data).")
+
+PROPS["C06"] = dict(
+    harness="c06_smoother", flavour="rel",
+    quick=dict(workers=8, cases=1600, min_nontrivial=300),
+    thorough=dict(workers=16, cases=100000, min_nontrivial=3000, budget_s=3000),
+    rule="SmootherGive/SmootherTake on " + _SMOOTH_RULE % (2, "and for energy-norm monotonicity"),
+    technique="property-based testing (rapidcheck); model-based oracle (reference zebra relaxation on the probed operator) plus residual, fixed-point and energy-norm invariants",
+    level_text="Each generated case runs one real smoothing sweep (both strategies, scratch vector pre-filled with garbage) "
+               "and checks: equality with an independent exact zebra line relaxation of the probed operator, zero "
+               "residual on the white radial lines (and white circles), Dirichlet values, the exact solution as fixed "
+               "point, give==take, and monotone energy norm. Exploration over generated cases.",
+    level_note="Trusted: reference operator and dense long double block solves; tolerance 32*eps*kappa(line block)*scale for "
+               "model equality (observed maxima in the evidence).",
+    assumptions=["mapping non-degenerate on the grid", "the colour order black circles, white circles, black radial, white radial with the outermost circle black is the documented one"],
+)
+
+PROPS["C07"] = dict(
+    harness="c07_extrapolated_smoother", flavour="rel",
+    quick=dict(workers=8, cases=1600, min_nontrivial=300),
+    thorough=dict(workers=16, cases=100000, min_nontrivial=3000, budget_s=3000),
+    rule="ExtrapolatedSmootherGive/Take on coarsenable " + _SMOOTH_RULE % (3, "(f := A x for an arbitrary x)"),
+    technique="property-based testing (rapidcheck); bitwise invariance of coarse nodes, model-based oracle (reference relaxation restricted to fine-only nodes), residual and fixed-point invariants",
+    level_text="Each generated case runs one real extrapolated smoothing sweep (both strategies) and checks that every node of "
+               "the next coarser grid is returned bit for bit (memcmp), that the result equals an independent zebra "
+               "relaxation whose free set is the fine-only nodes, that the residual vanishes on the fine-only nodes of the "
+               "last colour, the fixed point, and give==take. Exploration.",
+    level_note="Trusted: as C06.",
+    assumptions=["mapping non-degenerate on the grid"],
+)
